@@ -311,6 +311,12 @@ def check(db, rep):
     else:
         w, r = ti['to_json'], ti['from_json']
         uses_first = any(x['k'] == 'MemberExpr' and x.get('member') == 'first' for x in w.walk())
+        # ... or through a structured binding `[key, value]` of the iterated map whose first name is used in the body
+        for lp_ in [x for x in w.walk() if x['k'] == 'CXXForRangeStmt']:
+            d_ = w.stmts[lp_['loopvar']]['decls'][0]
+            bs_ = d_.get('bindings', [])
+            if len(bs_) == 2 and any(x['k'] == 'DeclRefExpr' and x.get('did') == bs_[0].get('did') for x in w.walk(w.stmts[lp_['body']])):
+                uses_first = True
         pushback = any((n.get('cs') or '').endswith('PushBack') for n in r.calls())
         if not uses_first and pushback:
             r4.violation('TextInterpretation', '%s:%d' % (w.file, w.line), 'interpretant ids (map keys) are not written; the reader renumbers them with PushBack (1,2,3,...) while the stored base-set data keeps the old ids')
@@ -407,8 +413,35 @@ def _independent_reads(db, rep):
                 pos = f.position_of(c)
                 inside = [(g, pol) for g, pol in (dominating_guards(f, pos) if pos is not None else []) if any(y is g or any(z is g for z in f.walk(y)) for y in f.walk(f.stmts[lp['body']]))]
                 inst = 'from_json(%s):append' % ptype
+                # a branch on the form of the element is fine when the other branch stores the element too (by another setter)
+                if inside:
+                    STORE = ('PushBack', 'push_back', 'emplace_back', 'Insert', 'insert', 'emplace', 'InsertCopy', 'Emplace', 'SetInterpretantFor', 'insert_or_assign', 'try_emplace')
+                    ifs = [a_ for a_ in f.ancestors(c) if a_['k'] == 'IfStmt' and any(y is a_ for y in f.walk(f.stmts[lp['body']]))]
+                    if ifs and all('else' in i_ and any((x.get('cs') or '').split('::')[-1] in STORE for x in f.calls(f.stmts[i_['else']])) and any((x.get('cs') or '').split('::')[-1] in STORE for x in f.calls(f.stmts[i_['then']])) for i_ in ifs):
+                        inside = []
                 if inside:
                     r7.violation(inst, f.loc(c), 'an element of the stored sequence is appended only if `%s`: equal or already-known elements are dropped, so positions (ids) of the following elements shift' % inside[0][0].get('txt', '')[:60])
                 else:
                     r7.ok(inst, 'every element of the stored sequence is appended', f.loc(c))
+    # ---------------------------------------------------------------- r8
+    r8 = rep.rule('r8', 'STABLE-ORDER: a JSON array is never filled by iterating a hash container (whose iteration order depends on the insertion history, so the document would change on every load / save)', 1)
+    n_w, hits = 0, []
+    for f in db.functions:
+        if not f.has_cfg() or not f.file or not f.file.endswith('JSON.cpp') or f.name.split('::')[-1] != 'to_json':
+            continue
+        n_w += 1
+        for lp in [x for x in f.walk() if x['k'] == 'CXXForRangeStmt']:
+            rt = ' '.join(str(x.get('t', '')) for x in f.walk(f.stmts[lp['range']]))
+            if 'unordered_map' not in rt and 'unordered_set' not in rt:
+                continue
+            appends = [c for c in f.calls(f.stmts[lp['body']]) if 'nlohmann' in (c.get('callee') or '') and ((c.get('cs') or '').split('::')[-1] in ('push_back', 'emplace_back') or c.get('op') == '+=')]
+            if appends:
+                hits.append((f, lp, appends[0]))
+    if not n_w:
+        r8.broken('no to_json writer found in JSON.cpp')
+    for f, lp, ap in hits:
+        ptype = f.rec['params'][-1]['type'].replace('const ', '').replace('&', '').strip().split('::')[-1]
+        r8.violation('to_json(%s)' % ptype, f.loc(ap), '`%s` appends to a JSON array inside a loop over `%s`, a hash container: the order of the array depends on the insertion history, the loader re-inserts in document order, so the array comes out in a different order after every load' % ((ap.get('txt') or '')[:50], (f.stmts[lp['range']].get('txt') or '')[:40]))
+    if n_w and not hits:
+        r8.ok('writers', '%d to_json writers: no JSON array is filled from a hash container' % n_w)
     rep.note('key_reads', n_reads)
